@@ -12,8 +12,6 @@ typedef struct S_class_rml__internal__Block blk_t;
 typedef struct S_class_rml__internal__TLSData tls_t;
 typedef struct S_class_rml__internal__MemoryPool pool_t;
 #define SLAB 16384
-/* the two slab headers are separate objects; the address model (ptrhooks) places them SLAB bytes apart at BASE: the code computes the
-   second slab as (uintptr_t)first + slabSize, which goes through vp_p2i / vp_i2p (a 32 KB object made symex run out of memory) */
 /* Both worlds agree on addresses: a pointer derived from the first header by pointer arithmetic (offset o, even out of bounds)
    has address BASE+o, one derived from the second BASE+SLAB+o. cbmc: two separate header objects. Native replay: one 32 KB
    buffer with real 16 KB spacing (two adjacent 128-byte objects would make first+128 alias the second slab natively). */
